@@ -25,6 +25,7 @@ class FloCheck(core.Check):
     """shared by the properties that are checked on the `flo` engine"""
     ENGINE = "flo"
     WANT = ("E", "S", "V", "K", "Z")
+    SHARE = 0.04               # probability that an `aux` clause of gen_susp reuses an auxiliary of another clause
 
     def __init__(self):
         self._cov = {}
@@ -99,7 +100,7 @@ class FloCheck(core.Check):
                 acc += w
                 if r < acc:
                     break
-            prog = floeng.gen_program(rng) if name == "mixed" else floeng.gen_susp(rng, full=(name == "suspfull"))
+            prog = floeng.gen_program(rng) if name == "mixed" else floeng.gen_susp(rng, full=(name == "suspfull"), share=self.SHARE)
             yield {"prog": prog, "gen": name}
 
 
